@@ -415,13 +415,18 @@ Init ==
     /\ haux = <<>>
 
 \* ---- key packages ----
-GenKeyPackage(p) ==
-    /\ Len(kps) < MaxKps
+\* lr: a last-resort key package (LastResortKeyPackageExt): joining with it does not use it up, its private keys
+\* stay in the owner's store, and the owner can be added again with the same package
+IsLr(i) == "lr" \in DOMAIN kps[i]
+LrChoices == IF "lastresort" \in Features THEN BOOLEAN ELSE {FALSE}
+GenKeyPackage(p, lr) ==
+    /\ Len(kps) < MaxKps /\ lr \in LrChoices
     /\ ~HasGroup(p)
     /\ ~\E i \in 1..Len(kps) : kps[i].owner = p /\ ~kps[i].used      \* one outstanding package per party
-    /\ kps' = Append(kps, [owner |-> p, cv |-> 0, used |-> FALSE, bad |-> ""])
+    /\ kps' = Append(kps, IF lr THEN [owner |-> p, cv |-> 0, used |-> FALSE, bad |-> "", lr |-> TRUE]
+                                 ELSE [owner |-> p, cv |-> 0, used |-> FALSE, bad |-> ""])
     /\ UNCHANGED <<grp, zomb, props, commits, winner, opt, repo, store, apps, det>>
-    /\ Record("GenKeyPackage", p, [kp |-> Len(kps) + 1, bad |-> ""], "ok", [x |-> 0])
+    /\ Record("GenKeyPackage", p, [kp |-> Len(kps) + 1, bad |-> "", lr |-> lr], "ok", [x |-> 0])
 
 \* a key package nobody may add: expired lifetime, or a credential the application's identity provider
 \* rejects (key_package/validator.rs, leaf_node_validator.rs); owned by a throw-away identity
@@ -430,7 +435,7 @@ GenBadKeyPackage(p, why) ==
     /\ ~\E i \in 1..Len(kps) : kps[i].bad = why /\ ~kps[i].used
     /\ kps' = Append(kps, [owner |-> "bad", cv |-> 0, used |-> FALSE, bad |-> why])
     /\ UNCHANGED <<grp, zomb, props, commits, winner, opt, repo, store, apps, det>>
-    /\ Record("GenKeyPackage", p, [kp |-> Len(kps) + 1, bad |-> why], "ok", [x |-> 0])
+    /\ Record("GenKeyPackage", p, [kp |-> Len(kps) + 1, bad |-> why, lr |-> FALSE], "ok", [x |-> 0])
 
 \* ---- proposals (by reference) ----
 \* who signed a proposal: a member (default), the external sender, or a party proposing its own addition
@@ -837,7 +842,7 @@ JoinWelcome(q, n) ==
                                         tree |-> c.newTree, priv |-> MergeFn((2 * l :> KpLeafKey(kp)), learned),
                                         cache |-> {}, pend |-> 0, pendUpd |-> {}, seenC |-> {}, sendGen |-> 0, recv |-> <<>>, hsSend |-> 0, hsRecv |-> <<>>,
                                         ext |-> c.newExt, frozen |-> c.reinit]]
-          /\ kps' = [kps EXCEPT ![kp].used = TRUE]
+          /\ kps' = [kps EXCEPT ![kp].used = ~IsLr(kp)]
           /\ repo' = [repo EXCEPT ![q] = [ins |-> <<>>, upd |-> <<>>]]
           /\ Record("JoinWelcome", q, [commit |-> n, kp |-> kp], "ok", [x |-> 0])
     /\ UNCHANGED <<zomb, props, commits, winner, opt, store, apps, det>>
@@ -1073,7 +1078,7 @@ ObsSnapshotRestore ==
 
 
 MemberNext ==
-    \/ \E p \in Parties : GenKeyPackage(p)
+    \/ \E p \in Parties : \E lr \in LrChoices : GenKeyPackage(p, lr)
     \/ \E p \in Parties : \E i \in 1..Len(kps) : ProposeAdd(p, i)
     \/ \E p \in Parties : \E l \in 0..7 : ProposeRemove(p, l)
     \/ \E p \in Parties : ProposeUpdate(p)
@@ -1118,7 +1123,7 @@ GenSuccKeyPackage(p) ==
     /\ ~\E i \in SuccKps : kps[i].owner = p /\ ~\E s \in 1..Len(succ) : i \in Range(succ[s].kp)
     /\ kps' = Append(kps, [owner |-> p, cv |-> 0, used |-> TRUE, bad |-> "", succ |-> TRUE])
     /\ UNCHANGED <<grp, zomb, props, commits, winner, opt, repo, store, apps, det, succ>>
-    /\ Record("GenKeyPackage", p, [kp |-> Len(kps) + 1, bad |-> ""], "ok", [x |-> 0])
+    /\ Record("GenKeyPackage", p, [kp |-> Len(kps) + 1, bad |-> "", lr |-> FALSE], "ok", [x |-> 0])
 
 SuccRest == UNCHANGED <<grp, zomb, kps, props, commits, winner, opt, repo, store, apps, det>>
 
